@@ -113,13 +113,62 @@ def parse(pattern, flags=0):
         raise Unsupported('pattern does not parse: {}'.format(e))
 
 
-def build(pattern, flags=0):
-    """bytes pattern -> NFA (anchored at its start, like re.match)."""
+_STRIP_ANCHORS = [False]
+
+
+def build(pattern, flags=0, strip_anchors=False):
+    """bytes pattern -> NFA (anchored at its start, like re.match).
+    strip_anchors: drop ^ $ \\A \\Z (they only restrict where a match may
+    sit, never what text it covers)."""
     tree = parse(pattern, flags)
+    return build_tree(tree, flags, strip_anchors)
+
+
+def build_tree(tree, flags=0, strip_anchors=False):
     nfa = NFA()
-    end = _build_seq(nfa, tree, nfa.start, flags)
+    old = _STRIP_ANCHORS[0]
+    _STRIP_ANCHORS[0] = strip_anchors
+    try:
+        end = _build_seq(nfa, tree, nfa.start, flags)
+    finally:
+        _STRIP_ANCHORS[0] = old
     nfa.accept = end
     return nfa
+
+
+def groups_of(tree, out=None):
+    """{group number: sub-pattern} for every capturing group."""
+    out = {} if out is None else out
+    for (op, av) in tree:
+        o = str(op)
+        if o == 'SUBPATTERN':
+            if av[0] is not None:
+                out[av[0]] = av[-1]
+            groups_of(av[-1], out)
+        elif o == 'BRANCH':
+            for alt in av[1]:
+                groups_of(alt, out)
+        elif o in ('MAX_REPEAT', 'MIN_REPEAT'):
+            groups_of(av[2], out)
+        elif o in ('ASSERT', 'ASSERT_NOT'):
+            groups_of(av[1], out)
+    return out
+
+
+def anchors_of(tree, out=None):
+    out = [] if out is None else out
+    for (op, av) in tree:
+        o = str(op)
+        if o == 'AT':
+            out.append(str(av))
+        elif o == 'SUBPATTERN':
+            anchors_of(av[-1], out)
+        elif o == 'BRANCH':
+            for alt in av[1]:
+                anchors_of(alt, out)
+        elif o in ('MAX_REPEAT', 'MIN_REPEAT'):
+            anchors_of(av[2], out)
+    return out
 
 
 def _build_seq(nfa, seq, cur, flags):
@@ -217,6 +266,10 @@ def _build_item(nfa, op, av, cur, flags):
         return out
     if op == 'AT':
         name = str(av)
+        if _STRIP_ANCHORS[0] and name in (
+                'AT_BEGINNING', 'AT_BEGINNING_STRING', 'AT_END',
+                'AT_END_STRING'):
+            return cur
         nxt = nfa.new()
         if name == 'AT_BOUNDARY':
             nfa.add_eps(cur, nxt, ('wb', True))
